@@ -303,9 +303,25 @@ class TolerantMini(Mini):
     (b) raises _AssertFailed for an assert whose test evaluates to false, (c) offers run_tolerant(): statements it
     cannot evaluate are skipped and the names they bind become unknown."""
 
-    def __init__(self, attr_hook=None, call_hook=None, what="extracted code"):
+    def __init__(self, attr_hook=None, call_hook=None, name_hook=None, what="extracted code"):
         self._user_attr_hook = attr_hook
+        self._name_hook = name_hook          # free name -> value | NotImplemented (module-level literal constants)
         super().__init__(call_hook=call_hook, attr_hook=self._attr, what=what)
+
+    def ev(self, n, env):
+        if isinstance(n, ast.Name) and n.id not in env and n.id not in ("True", "False", "None") and self._name_hook is not None:
+            r = self._name_hook(n.id)
+            if r is not NotImplemented:
+                return r
+        if isinstance(n, ast.Dict) and all(k is not None for k in n.keys):
+            return {self.ev(k, env): self.ev(v, env) for k, v in zip(n.keys, n.values)}
+        if isinstance(n, ast.Call) and isinstance(n.func, ast.Attribute) and n.func.attr == "get" and not n.keywords \
+                and len(n.args) in (1, 2):
+            recv = self.ev(n.func.value, env)
+            if isinstance(recv, dict):
+                args = [self.ev(a, env) for a in n.args]
+                return recv.get(*args)
+        return super().ev(n, env)
 
     def _attr(self, node, env, mini):
         d = dotted(node)
@@ -332,6 +348,8 @@ class TolerantMini(Mini):
             return
         if isinstance(st, (ast.FunctionDef, ast.AsyncFunctionDef, ast.ClassDef, ast.Import, ast.ImportFrom)):
             return
+        if isinstance(st, ast.Expr):
+            return          # bare calls (logging, list.append of a collector, ...) do not bind the tracked scalars
         super()._stmt(st, env)
 
     @staticmethod
